@@ -19,16 +19,18 @@ Section Sim.
   Variable t : tree.
   Variable size : N.
   Variable R : stask -> task -> Prop.
-  Hypothesis Hsplit : forall s c, R s c -> Forall2 R (s_split s) (split c).
-  Hypothesis Hnext : forall s c, R s c ->
+  (* tasks that enter a round are unfinished *)
+  Definition RU (s : stask) (c : task) : Prop := R s c /\ unfinished c = true.
+  Hypothesis Hsplit : forall s c, RU s c -> Forall2 RU (s_split s) (split c).
+  Hypothesis Hnext : forall s c, RU s c ->
     exists s', s_next_chunk H t size s =
                Some (chunk_of H (inrun (task_run size c)) t, task_run size c, s') /\
                R s' (advance size c).
   Hypothesis Hfin : forall s c, R s c -> s_finished s = negb (unfinished c).
 
   Lemma split_pass_sim threads ts : forall tc acc acc',
-    Forall2 R acc acc' -> Forall2 R ts tc ->
-    Forall2 R (fst (g_split_pass s_split threads acc ts)) (fst (split_pass threads acc' tc)) /\
+    Forall2 RU acc acc' -> Forall2 RU ts tc ->
+    Forall2 RU (fst (g_split_pass s_split threads acc ts)) (fst (split_pass threads acc' tc)) /\
     snd (g_split_pass s_split threads acc ts) = snd (split_pass threads acc' tc).
   Proof.
     induction ts as [|s ts IH]; intros tc acc acc' Ha Ht; inversion Ht; subst; cbn [g_split_pass split_pass fst snd].
@@ -40,7 +42,7 @@ Section Sim.
   Qed.
 
   Lemma split_tasks_sim threads n : forall ts tc,
-    Forall2 R ts tc -> Forall2 R (g_split_tasks s_split threads n ts) (split_tasks threads n tc).
+    Forall2 RU ts tc -> Forall2 RU (g_split_tasks s_split threads n ts) (split_tasks threads n tc).
   Proof.
     induction n as [|n IH]; intros ts tc Ht; cbn [g_split_tasks split_tasks]; [assumption|].
     destruct (split_pass_sim threads ts tc [] [] (Forall2_nil _) Ht) as [F E].
@@ -48,7 +50,7 @@ Section Sim.
     cbn [fst snd] in *. subst b'. destruct b; auto.
   Qed.
 
-  Lemma next_all ts : forall tc, Forall2 R ts tc ->
+  Lemma next_all ts : forall tc, Forall2 RU ts tc ->
     exists res, opt_all (map (s_next_chunk H t size) ts) = Some res /\
       map fst res = map (fun c => (chunk_of H (inrun (task_run size c)) t, task_run size c)) tc /\
       Forall2 R (map snd res) (map (advance size) tc).
@@ -61,18 +63,18 @@ Section Sim.
   Qed.
 
   Lemma filter_sim l : forall l', Forall2 R l l' ->
-    Forall2 R (filter (fun tk => negb (s_finished tk)) l) (filter unfinished l').
+    Forall2 RU (filter (fun tk => negb (s_finished tk)) l) (filter unfinished l').
   Proof.
     induction l as [|s l IH]; intros l' Hl; inversion Hl; subst; cbn [filter]; [constructor|].
-    rewrite (Hfin _ _ H2), negb_involutive. destruct (unfinished y); [constructor|]; auto.
+    rewrite (Hfin _ _ H2), negb_involutive. destruct (unfinished y) eqn:Eu; [constructor; [split; assumption|]|]; auto.
   Qed.
 
   Lemma rounds_sim threads fuel : forall ts tc,
-    Forall2 R ts tc ->
+    Forall2 RU ts tc ->
     exists res lft,
       s_rounds fuel H t size threads ts = Some (res, lft) /\
       res = map (fun run => (chunk_of H (inrun run) t, run)) (fst (par_rounds fuel size threads tc)) /\
-      Forall2 R lft (snd (par_rounds fuel size threads tc)).
+      Forall2 RU lft (snd (par_rounds fuel size threads tc)).
   Proof.
     induction fuel as [|fuel IH]; intros ts tc Ht; cbn [s_rounds par_rounds].
     - exists [], ts. auto.
@@ -91,7 +93,7 @@ Section Sim.
      count abstraction; hence chunks_cover, restore_any_order,
      metadata_deterministic, ... apply to the port's chunk list *)
   Theorem par_stack_refines_count_partial_l threads :
-    t <> Nil -> R (new_stask t) (mk t 0%N 0) ->
+    t <> Nil -> RU (new_stask t) (mk t 0%N 0) ->
     exists res,
       s_par H size threads t = Some (res, []) /\
       map snd res = fst (par_runs size threads t) /\
